@@ -5,9 +5,12 @@ import (
 	"crypto/sha1"
 	"encoding/gob"
 	"fmt"
+	"runtime"
+	"runtime/metrics"
 	"sort"
 	"strings"
 	"sync"
+	"sync/atomic"
 	"time"
 
 	"github.com/gofiber/fiber/v3"
@@ -714,6 +717,33 @@ func (rs *runState) judge(hist []opA, si stepInfo, j *judgeCtx) {
 // ---------------------------------------------------------------------------
 // BFS by replay
 
+// memGuard is back-pressure against heap growth: every execution allocates a fresh app, and on an
+// oversubscribed machine a GC cycle can take seconds during which everything allocated stays
+// live. When the heap passes the limit all workers queue behind one forced collection.
+var memGuard struct {
+	mu sync.Mutex
+	n  atomic.Int64
+}
+
+const heapLimit = 1536 << 20
+
+func throttle() {
+	if memGuard.n.Add(1)%64 != 0 {
+		return
+	}
+	sample := []metrics.Sample{{Name: "/memory/classes/heap/objects:bytes"}}
+	metrics.Read(sample)
+	if sample[0].Value.Kind() != metrics.KindUint64 || sample[0].Value.Uint64() < heapLimit {
+		return
+	}
+	memGuard.mu.Lock()
+	metrics.Read(sample)
+	if sample[0].Value.Uint64() >= heapLimit {
+		runtime.GC()
+	}
+	memGuard.mu.Unlock()
+}
+
 type hkey [16]byte
 
 func hashKey(s string) hkey {
@@ -789,6 +819,7 @@ func bfs(r *core.Run, col *collector, cfg cfgA, cfgIdx int, samples *[]any) bfsR
 			parent := frontier[i]
 			n := 0
 			runOne := func(o opA, ordOp int) stepInfo {
+				throttle()
 				rs := newRunState(cfg)
 				for _, p := range parent.Hist {
 					rs.step(p)
@@ -930,7 +961,7 @@ func runA(r *core.Run, col *collector, samples *[]any, only string) map[string]a
 	var wg sync.WaitGroup
 	var next int
 	var nmu sync.Mutex
-	for w := 0; w < 6; w++ {
+	for w := 0; w < 4; w++ {
 		wg.Add(1)
 		go func() {
 			defer wg.Done()
